@@ -524,6 +524,19 @@ package yang
 //@   loop 1
 //@     invariant forall j int :: 0 <= j && j < _k ==> mod.Import[j].Prefix.Name != prefix
 //
+// Process is outside the subset (reflection through ToEntry). Assumed: it
+// never removes or replaces a module that is loaded (it only adds modules that
+// imports and includes name).
+//@ func (*Modules).Process trusted
+//@   ensures ms.Modules == old(ms.Modules) && (forall k string :: old(ms.Modules[k]) != nil ==> ms.Modules[k] == old(ms.Modules[k]))
+//
+// ToEntry tests its argument against the nil interface only: a nil *Module
+// inside a Node passes that test and is dereferenced. Everything else about
+// ToEntry (reflection) is outside the subset: no modifies clause, so a call
+// havocs the heap.
+//@ func ToEntry trusted
+//@   requires typeis(n, *Module) ==> asptr(n, *Module) != nil
+//
 //@ func (*Entry).Find props C17 C04 C01 C19
 //@   requires forall x *Entry :: ranked(x) && rootOK(x)
 //@   requires forall m *Module :: modOK(m)
